@@ -12,9 +12,21 @@ CONSTANTS NK,        \* keys 1..NK
           TQSizes,   \* HasTwoQueueCacheSize values (0 = no tqcache)
           BloomSizes,\* HasBloomFilterSize values in bytes (0 = no bloom)
           D,         \* BFS: history length bound
-          E          \* emit when Len(hist) = E
+          E,         \* emit when Len(hist) = E
+          BL,        \* PutMany batches are SEQUENCES of keys of length 0..BL (duplicates, any order)
+          PrepOn     \* batch family: a preparing call (one cache entry) precedes the PutMany
 
 Keys == 1..NK
+
+(* A PutMany batch is what the caller hands over: a finite SEQUENCE of blocks -- the same block may occur
+   several times, several distinct blocks may occur, in any order (the order in which their multihashes
+   sort is not the order of the batch).  The map model does not care: afterwards every block that occurs
+   in the batch is present (with its own bytes and size), nothing else changes.                         *)
+RECURSIVE SeqsOfLen(_)
+SeqsOfLen(n) == IF n = 0 THEN {<<>>} ELSE {Append(s, k) : s \in SeqsOfLen(n - 1), k \in Keys}
+Batches   == UNION {SeqsOfLen(n) : n \in 0..BL}
+Range(s)  == {s[i] : i \in 1..Len(s)}
+
 VARIABLES m, act, cfg, hist, flushed
 vars == <<m, act, cfg, hist, flushed>>
 
@@ -40,10 +52,11 @@ Rec(op, api, k, ks, f, found, res) ==
   [op |-> op, api |-> api, k |-> k, ks |-> ks, fault |-> f[1], at |-> f[2], found |-> found, res |-> res,
    act |-> act', m |-> m']
 
-Put(k)      == m' = m \cup {k} /\ UNCHANGED act /\ hist' = Append(hist, Rec("Put", "", k, {}, <<"none", 0>>, FALSE, "ok"))
-Del(k)      == m' = m \ {k}    /\ UNCHANGED act /\ hist' = Append(hist, Rec("Del", "", k, {}, <<"none", 0>>, FALSE, "ok"))
-PutMany(ks) == m' = m \cup ks  /\ UNCHANGED act /\ hist' = Append(hist, Rec("PutMany", "", 0, ks, <<"none", 0>>, FALSE, "ok"))
-Read(api, k) == UNCHANGED <<m, act>> /\ hist' = Append(hist, Rec("Read", api, k, {}, <<"none", 0>>, k \in m, "ok"))
+Put(k)      == m' = m \cup {k} /\ UNCHANGED act /\ hist' = Append(hist, Rec("Put", "", k, <<>>, <<"none", 0>>, FALSE, "ok"))
+Del(k)      == m' = m \ {k}    /\ UNCHANGED act /\ hist' = Append(hist, Rec("Del", "", k, <<>>, <<"none", 0>>, FALSE, "ok"))
+\* bs is a sequence (the batch as handed over); `ks` of the record keeps it as a sequence
+PutMany(bs) == m' = m \cup Range(bs) /\ UNCHANGED act /\ hist' = Append(hist, Rec("PutMany", "", 0, bs, <<"none", 0>>, FALSE, "ok"))
+Read(api, k) == UNCHANGED <<m, act>> /\ hist' = Append(hist, Rec("Read", api, k, <<>>, <<"none", 0>>, k \in m, "ok"))
 Rebuild(f)  ==
   /\ cfg.bloom # 0
   /\ UNCHANGED m
@@ -53,8 +66,17 @@ Rebuild(f)  ==
 
 Step == \/ \E k \in Keys : Put(k) \/ Del(k)
         \/ \E k \in Keys, api \in {"Has", "Get", "Size", "View"} : Read(api, k)
-        \/ \E ks \in SUBSET Keys : PutMany(ks)
+        \/ \E bs \in Batches : PutMany(bs)
         \/ \E f \in Faults(Cardinality(m)) : Rebuild(f)
+
+\* -simulate computes every successor: draw one batch per length 0..BL at random instead of all of them
+\* (the draw is bound by \E so that it is made once per disjunct; with few keys most long batches
+\* contain duplicates)
+StepSim == \/ \E k \in Keys : Put(k) \/ Del(k)
+           \/ \E k \in Keys, api \in {"Has", "Get", "Size", "View"} : Read(api, k)
+           \/ \E n \in 0..BL :
+                \E bs \in {RandomElement({s \in Batches : Len(hist) >= 0 /\ Len(s) = n})} : PutMany(bs)
+           \/ \E f \in Faults(Cardinality(m)) : Rebuild(f)
 
 SNext == Len(hist) < D /\ Step /\ UNCHANGED <<cfg, flushed>>
 SSpec == Init /\ [][SNext]_vars
@@ -64,6 +86,21 @@ Emit  == Len(hist) # E \/ PrintT(<<"BEHAVIOUR", ToJson([cfg |-> cfg, steps |-> h
 Flush == /\ ~flushed /\ Len(hist) = E
          /\ PrintT(<<"BEHAVIOUR", ToJson([cfg |-> cfg, steps |-> hist])>>)
          /\ flushed' = TRUE /\ UNCHANGED <<m, act, cfg, hist>>
-SNextSim == ~flushed /\ (IF Len(hist) = E THEN Flush ELSE Step /\ UNCHANGED <<cfg, flushed>>)
+SNextSim == ~flushed /\ (IF Len(hist) = E THEN Flush ELSE StepSim /\ UNCHANGED <<cfg, flushed>>)
 SSpecSim == Init /\ [][SNextSim]_vars
+
+(* Batch family (exhaustive): EVERY batch of length <= BL -- every multiset of keys in every order -- on
+   every configuration and initial content, optionally after one preparing call that leaves one entry in
+   the existence cache (a size, a "have" or a "have not"), so that the batch is partly answered by the
+   cache.  The initial build is not disturbed here (that is the business of the other families).       *)
+BInit ==
+  /\ \E tq \in TQSizes, bl \in BloomSizes, pre \in SUBSET Keys :
+       /\ cfg = [tq |-> tq, bloom |-> bl, pre |-> pre, ifault |-> <<"none", 0>>]
+       /\ m = pre
+       /\ act = IF bl = 0 THEN "off" ELSE "ok"
+  /\ hist = <<>> /\ flushed = FALSE
+Prep  == \E k \in Keys : Del(k) \/ Read("Size", k) \/ Read("Has", k)
+BStep == IF PrepOn /\ Len(hist) = 0 THEN Prep ELSE \E bs \in Batches : PutMany(bs)
+BNext == Len(hist) < E /\ BStep /\ UNCHANGED <<cfg, flushed>>
+BSpec == BInit /\ [][BNext]_vars
 =============================================================================
